@@ -33,8 +33,8 @@ import (
 
 // Case is one server script and one request.
 type Case struct {
-	Prefix    []string `json:"prefix"` // steps of the httpsrv alphabet
-	Tail      string   `json:"tail"`   // answered to every request after the prefix
+	Prefix    []string `json:"prefix"`          // steps of the httpsrv alphabet
+	Tail      string   `json:"tail"`            // answered to every request after the prefix
 	Cycle     []string `json:"cycle,omitempty"` // when set, repeated for ever after the prefix instead of Tail
 	Method    string   `json:"method"`
 	BodyKind  string   `json:"body_kind"` // none (nil body) | bytes (length known, rewindable) | stream (opaque reader: chunked)
